@@ -120,7 +120,7 @@ func PreIdent(t *rapid.T, hostile bool, label string) string {
 	if !hostile {
 		return "x"
 	}
-	return []string{"", "00", "01", "0123", "a_b", "a b", "é", "a+b", "~", "a/b"}[rapid.IntRange(0, 9).Draw(t, label+"bad")]
+	return []string{"", "00", "01", "0123", "a_b", "a b", "é", "a+b", "~", "a/b", "\u0161", "\u0430", "\u754c", "\u012d", "\uff11", "a\u0300"}[rapid.IntRange(0, 15).Draw(t, label+"bad")]
 }
 
 // BuildIdent draws one build identifier (leading zeros are fine there).
@@ -137,7 +137,7 @@ func BuildIdent(t *rapid.T, hostile bool, label string) string {
 	if !hostile {
 		return "b"
 	}
-	return []string{"", "a_b", "é", "+", "a b"}[rapid.IntRange(0, 4).Draw(t, label+"bad")]
+	return []string{"", "a_b", "é", "+", "a b", "\u0161", "\u0430", "\u754c", "\u012d", "\uff11", "x\u0161y"}[rapid.IntRange(0, 10).Draw(t, label+"bad")]
 }
 
 // Parts draws a version; with hostile=false it is always valid.
@@ -164,6 +164,10 @@ func Parts(t *rapid.T, hostile bool) VerParts {
 	allowSuffix := nn == 3 || (hostile && rapid.IntRange(0, 9).Draw(t, "shortsuffix") == 0)
 	if allowSuffix && rapid.IntRange(0, 99).Draw(t, "haspre") < 55 {
 		n := []int{1, 1, 1, 2, 2, 3, 4, 9, 24}[rapid.IntRange(0, 8).Draw(t, "npre")]
+		if Chance(t, 6, "manyidents") {
+			// more identifiers than bits in a machine word
+			n = []int{31, 32, 33, 63, 64, 65, 66, 130}[Uniform(t, 8, "npremany")]
+		}
 		p.Pre = []string{}
 		for i := 0; i < n; i++ {
 			p.Pre = append(p.Pre, PreIdent(t, hostile, "pre"))
@@ -197,6 +201,9 @@ func Near(t *rapid.T, p VerParts, hostile bool) VerParts {
 	case 2, 3, 4:
 		if len(q.Pre) > 0 {
 			i := rapid.IntRange(0, len(q.Pre)-1).Draw(t, "pi")
+			if len(q.Pre) > 8 && rapid.Bool().Draw(t, "tailident") {
+				i = len(q.Pre) - 1 - rapid.IntRange(0, 2).Draw(t, "fromend")
+			}
 			if rapid.Bool().Draw(t, "charlevel") {
 				// stay close: edit the identifier at character level (keeps shared prefixes,
 				// changes lengths of digit runs after a hyphen, turns numeric into alphanumeric, ...)
@@ -246,7 +253,9 @@ func Near(t *rapid.T, p VerParts, hostile bool) VerParts {
 	return q
 }
 
-var hostileBytes = []string{"v", ".", "-", "+", "0", "1", "a", "Z", "_", " ", "\n", "\x00", "é", "\xff", "/", "00", ".0", "-0", "+0", "..", "--", "++"}
+var hostileBytes = []string{"v", ".", "-", "+", "0", "1", "a", "Z", "_", " ", "\n", "\x00", "é", "\xff", "/", "00", ".0", "-0", "+0", "..", "--", "++",
+	// code points whose low byte is an ASCII letter, digit or hyphen (U+0161 -> 'a', U+0430 -> '0', U+754C -> 'L', U+012D -> '-'), a full-width digit, a combining mark
+	"\u0161", "\u0430", "\u754c", "\u012d", "\uff11", "\u0300"}
 
 // MutateString applies n byte-level edits to s.
 func MutateString(t *rapid.T, s string, n int, alphabet []string) string {
